@@ -60,7 +60,8 @@ for _p, _t in (("C06", "line commands and addresses: a i c d y pu p = k rs, bare
              "command by command from the model state (profile: %s), TLC evaluates the spec's own properties on every "
              "line (rejection leaves text alone, one undo step per prompt line incl. a whole global, redo inverse) and "
              "writes the expected state after every prompt line; the scripts are typed into the traced vi -s -e and text, "
-             "current line, output, registers, marks and status are compared line by line." % _t,
+             "current line, output, registers, marks and status are compared line by line. C06 also enumerates every sequence of two "
+             "(thorough: three) prompt lines over 31 fixed command lines from a three-line buffer." % _t,
         design="8/" + _p, technique="TLA+ reference editor (Ex.tla) evaluated by TLC; behaviours replayed into the traced binary (M1)",
         note="Sampled behaviours (seeded), not exhaustive. Known deviations are recognised only when the recorded state "
              "equals the operational transcription kept in the spec (Ex!SubCode).")
@@ -126,9 +127,11 @@ for _p, _t in (("C07", "cursor motions"), ("C08", "operators, inserts, puts, reg
              "insert-mode keys with autoindent, puts, joins, replaces, the searches with whole-line context; Gen_Vi.tla builds seeded "
              "key sequences from the model state (%s), TLC evaluates the spec's own properties on every command (cursor on an "
              "existing character, motions leave the text alone) and writes the expected state; the keys are typed into the traced "
-             "vi -v and text, cursor, sticky column and registers are compared at every command boundary." % _t,
+             "vi -v and text, cursor, sticky column and registers are compared at every command boundary. C07 / C08 also enumerate "
+             "every command of a fixed list (motions with counts; operator x motion x count, edits, inserts) from every cursor "
+             "position of small buffers (profile exh)." % _t,
         design="8/" + _p, technique="TLA+ reference of visual mode (Vi.tla) evaluated by TLC; behaviours replayed into the traced binary (M1)",
-        note="Sampled behaviours (seeded). Window 23x80 with buffers that fit, so H M L do not depend on scrolling policy. Known "
+        note="Sampled behaviours (seeded) plus exhaustive single steps in a small scope. Window 23x80 with buffers that fit, so H M L do not depend on scrolling policy. Known "
              "deviations are recognised only when the recorded state equals the operational transcription kept in the spec and the "
              "pattern has a word-boundary anchor.")
 
